@@ -91,6 +91,13 @@ theorem sendMessage_rkeys (s : State) (rem : Remote) (mc : Bool) (token : Token)
 theorem sendBare_rkeys (s : State) (rem : Remote) (t : MType) (m : Nat) :
     rkeys (sendBare s rem t m).1 = rkeys s := sendInitially_rkeys _ _ _ _ _
 
+theorem fireEmptyAck_rkeys (s : State) (rem : Remote) (token : Token) :
+    rkeys (fireEmptyAck s rem token).1 = rkeys s := by
+  unfold fireEmptyAck
+  split
+  · rfl
+  · exact sendBare_rkeys (dropPiggy s rem token) _ _ _
+
 theorem recvCode_rkeys (s : State) (rem : Remote) (mcl : Bool) (w : Wire) :
     rkeys (recvCode s rem mcl w).1 = rkeys s := by
   have hpr : rkeys (processResponse s rem w).1 = rkeys s :=
@@ -101,7 +108,7 @@ theorem recvCode_rkeys (s : State) (rem : Remote) (mcl : Bool) (w : Wire) :
   · split
     · rfl
     · split
-      · exact rkeys_of_recent (processRequest_recent s rem w)
+      · exact (rkeys_of_recent (processRequest_recent s rem w)).trans (fireEmptyAck_rkeys s rem w.token)
       · split
         · dsimp only
           split
@@ -124,7 +131,7 @@ theorem recvDup_rkeys (s : State) (rem : Remote) (w : Wire) : rkeys (recvDup s r
 /-- a received datagram adds at most its own key, and only when that key is not in the table -/
 theorem recv_rkeys (s : State) (rem : Remote) (mcl : Bool) (w : Wire) :
     rkeys (recv s rem mcl w).1 =
-      if (!isDup s rem w && isRequest w.code) = true then rkeys s ++ [(rem, w.mid)] else rkeys s := by
+      if (!isDup s rem w && dedupable w) = true then rkeys s ++ [(rem, w.mid)] else rkeys s := by
   unfold recv
   split
   · rename_i hd
@@ -132,15 +139,15 @@ theorem recv_rkeys (s : State) (rem : Remote) (mcl : Bool) (w : Wire) :
     exact recvDup_rkeys s rem w
   · rename_i hd
     simp only [hd, Bool.not_false, Bool.true_and]
-    have h0 : rkeys (if isRequest w.code = true then
+    have h0 : rkeys (if dedupable w = true then
         { s with recent := s.recent ++ [{ remote := rem, mid := w.mid, reply := none,
                                           expiry := s.now + s.cfg.exchangeLifetime }] } else s) =
-        if isRequest w.code = true then rkeys s ++ [(rem, w.mid)] else rkeys s := by
+        if dedupable w = true then rkeys s ++ [(rem, w.mid)] else rkeys s := by
       split
       · simp [rkeys]
       · rfl
     rw [← h0]
-    generalize (if isRequest w.code = true then _ else s) = s0
+    generalize (if dedupable w = true then _ else s) = s0
     rw [recvCode_rkeys]
     split
     · exact removeExchange_rkeys s0 rem w
@@ -175,7 +182,7 @@ theorem handle_rkeys (s : State) (ev : Ev) :
         right; left
         refine ⟨(rem, w.mid), ?_, rfl, mcl, w, rfl⟩
         rw [mem_rkeys]
-        have e : isDup s rem w = (isRequest w.code && keyed rem w.mid s) := rfl
+        have e : isDup s rem w = (dedupable w && keyed rem w.mid s) := rfl
         rw [e, hc.2] at hc
         simpa using hc.1
       · left; rfl
